@@ -24,12 +24,12 @@ RULE = ("cases: (a) ill-defined models by construction: self reference, cycles o
         "case is; distinct by (class, canonical shape digest)"
         ' Classes added after the seeded rounds: sub-proposition next to a leaf with the same id, generated-id collisions, cross-branch cycles, same id and same child ids with differences one level further down.')
 BUDGET = {"quick": (12, 500, 90), "thorough": (16, 4000, 1200)}
-ILL = ["self-ref", "cycle", "cycle-cross-branch", "deep-ambivalence", "dup-child", "dup-child-ref-leaf", "generated-id-collision", "compound-value-twin", "leaf-bounds", "leaf-bounds-twin", "compound-sign", "compound-value",
+ILL = ["self-ref", "cycle", "cycle-cross-branch", "deep-ambivalence", "compound-sign-symmetric", "dup-child-by-negation", "dup-child", "dup-child-ref-leaf", "generated-id-collision", "compound-value-twin", "leaf-bounds", "leaf-bounds-twin", "compound-sign", "compound-value",
        "compound-children", "compound-children-twin", "leaf-vs-compound"]
 PYTEST = True     # thorough tier also runs the repository's own tests under these monitors
 MANDATORY = ["judged:accepted=>well-defined", "judged:tree=>accepted", "judged:sharing=>accepted", "contract:AtLeast.errors"] + \
             ["count:ill:" + c for c in ILL] + ["count:ill-rejected", "count:class:tree", "count:class:share-identity",
-                                               "count:class:share-copy", "count:class:share-other-class"]
+                                               "count:class:share-copy", "count:class:share-other-class", "count:class:share-negated-copy"]
 
 
 def is_tree(model):
@@ -152,6 +152,19 @@ def build_ill(cls, rng):
         else:
             mk = lambda b: pg.Any(pg.Any(puan.variable("x", b), "y"), "p")          # no explicit id anywhere
         return pg.All(pg.All(mk(b1), "p1", variable="P"), pg.All(mk(b2), "q1", variable="Q"), variable="M")
+    if cls == "compound-sign-symmetric":
+        # same id, bounds, value and children, opposite signs; the children's total range is symmetric around 0, so the two
+        # definitions cannot be told apart by their equation bounds
+        ch = rng.choice([lambda: [puan.variable("t", (-2, 2))], lambda: [puan.variable("t", (-1, 1)), puan.variable("u", (-3, 3))],
+                         lambda: [puan.variable("t", (-2, 0)), puan.variable("u", (0, 2))], lambda: [puan.variable("t", (0, 0))]])
+        v = rng.choice([1, -1, 0])
+        return pg.All(pg.Any(pg.AtLeast(v, ch(), variable="S", sign=1), "p", variable="B"),
+                      pg.Any(pg.AtLeast(v, ch(), variable="S", sign=-1), "q", variable="C"), variable="A")
+    if cls == "dup-child-by-negation":
+        # negation moved inwards gives the node two children with the same (generated) id that are not neighbours
+        inner = pg.Any(pg.Any("a", "x"), pg.Any("b", "c"), "a", "x")
+        n = pg.Not(inner)
+        return rng.choice([lambda: n, lambda: pg.Imply(inner, "z"), lambda: pg.All(n, "w", variable="T")])()
     if cls == "dup-child-ref-leaf":
         # a node lists a sub-proposition and a leaf carrying the same id (and bounds) side by side
         r = rng.random()
@@ -227,7 +240,7 @@ def gen_case(rng, tier, ctx, i):
         o = common.varied_opts(rng, tier, p_share=0.3, p_copy=0.2)
         rec = common.model_case(rng, tier, o)
         return None if rec is None else {"class": "share?", "recipe": rec}
-    return {"class": "share-other-class", "seed": rng.getrandbits(32)}
+    return {"class": rng.choice(["share-other-class", "share-other-class", "share-negated-copy"]), "seed": rng.getrandbits(32)}
 
 
 def run_case(case, ctx):
@@ -235,6 +248,16 @@ def run_case(case, ctx):
     if cls in ILL:
         m = build_ill(cls, random.Random(case["seed"]))
         ctx.count("count:ill:" + cls)
+        ctx.call("errors", m.errors)
+        return
+    if cls == "share-negated-copy":
+        rng = random.Random(case["seed"])
+        base = rng.choice([lambda: pg.Any(pg.All("a", "b"), pg.Any("c", "d"), "e"), lambda: pg.All(pg.Any("a", "b"), pg.Any("c", "d"), pg.Xor("e", "f")),
+                           lambda: pg.AtLeast(2, [pg.Any("c", "d"), pg.All("a", "b"), pg.Any("e", "f")], variable="N")])()
+        n1 = base.negate()
+        copy_ = rng.choice([lambda: pg.AtLeast(n1.value, list(n1.propositions), variable=n1.variable, sign=n1.sign), lambda: n1.assume({})])()
+        m = pg.All(pg.Any(n1, "p", variable="B"), pg.Any(copy_, "q", variable="C"), variable="A")
+        ctx.count("count:class:share-negated-copy")
         ctx.call("errors", m.errors)
         return
     if cls == "share-other-class":
